@@ -29,6 +29,10 @@ let int_of_n n = Int64.to_int (int64_of_n n)
 let rec nat_of_int i = if i = 0 then O else S (nat_of_int (i - 1))
 
 let s_res f = function Ok a -> f a | Panic -> "P" | Diverge -> "DIVERGE"
+(* results of the extracted projections (Model/Proj.v): booleans as 1/0; a guarded field / op that did not return is P *)
+let s_bools l = String.concat " " (List.map s_b l)
+let s_fields l = String.concat " " (List.map (s_res s_b) l)
+let s_guarded = function Ok l -> s_bools l | _ -> "P"
 let s_words ws = String.concat " " (List.map s_n ws)
 let s_cmp = function Lt -> "-1" | Eq -> "0" | Gt -> "1"
 let s_hr h = Printf.sprintf "%s %s %s" (s_n h.hr_value) (s_n h.hr_name) (s_n h.hr_class)
@@ -103,137 +107,26 @@ let exec toks =
       let base = [ s_res s_n hrv; s_res s_n hrv; s_res (fun (x, _) -> s_n x) (hrvh c ws); s_res s_n vv; s_res s_n vv ] in
       String.concat " " (if n = 5 then base @ [ s_res s_n (evaluate_five_cards c ws) ] else base)
   | "best" ->
-      (* C02 projection: every entry point = the lowest non-zero value among the five-slot sub-hands *)
-      let v = nums () in
-      let ws = List.tl v in
-      let rec subs k l = if k = 0 then [ [] ] else match l with [] -> [] | x :: r -> List.map (fun s -> x :: s) (subs (k - 1) r) @ subs k r in
-      let lt a b = Int64.unsigned_compare (int64_of_n a) (int64_of_n b) < 0 in
-      let exception Pan in
-      (try
-         let m =
-           List.fold_left
-             (fun m five ->
-               match hand_rank_value c five with
-               | Ok x -> if x <> N0 && (m = N0 || lt x m) then x else m
-               | _ -> raise Pan)
-             N0 (subs 5 ws)
-         in
-         let eqr r = match r with Ok x -> s_b (x = m) | _ -> "P" in
-         let hrv = hand_rank_value c ws in
-         let vv = hand_rank_value_validated c ws in
-         String.concat " " [ eqr hrv; eqr hrv; (match hrvh c ws with Ok (x, _) -> s_b (x = m) | _ -> "P"); eqr vv; eqr vv ]
-       with Pan -> "P P P P P")
-  | "vrank" ->
-      let v = nums () in
-      let n = int_of_n (List.hd v) in
-      let ws = List.tl v in
-      let valid = is_valid ws in
-      let vv = hand_rank_value_validated c ws in
-      let eqr a b = match (a, b) with Ok x, Ok y -> s_b (x = y) | _ -> "P" in
-      let base = [ s_b valid; s_res (fun x -> s_b (x = N0)) vv; s_res (fun _ -> "1") vv ] in
-      let base = if valid then base @ [ eqr (hand_rank_value c ws) vv ] else base in
-      String.concat " " (if n = 5 then base @ [ eqr (evaluate_five_cards c ws) vv ] else base)
-  | "wit" -> (
-      let v = nums () in
-      let n = int_of_n (List.hd v) in
-      let ws = List.tl v in
-      match hrvh c ws with
-      | Panic -> "P"
-      | Diverge -> "DIVERGE"
-      | Ok (value, h) ->
-          if n = 5 then s_b (h = ws)
-          else
-            let from_input = List.for_all (fun x -> List.mem x ws) h in
-            let rec distinct = function [] -> true | x :: r -> (not (List.mem x r)) && distinct r in
-            let rec desc = function a :: (b :: _ as r) -> Int64.unsigned_compare (int64_of_n a) (int64_of_n b) >= 0 && desc r | _ -> true in
-            let re = match hand_rank_value c h with Ok x -> x = value | _ -> false in
-            String.concat " " [ s_b from_input; s_b (distinct h); s_b (desc h); s_b re ])
-  | "shiftinv" ->
-      let ws = List.tl (nums ()) in
-      let v0 = hand_rank_value c ws in
-      let h1 = shift_suit_hand ws in
-      let h2 = shift_suit_hand h1 in
-      let h3 = shift_suit_hand h2 in
-      let w0 = hand_rank_value_validated c ws in
-      let eqr a r0 = match (a, r0) with Ok x, Ok y -> s_b (x = y) | _ -> "P" in
-      String.concat " "
-        (List.concat_map (fun h -> [ eqr (hand_rank_value c h) v0; eqr (hand_rank_value_validated c h) w0 ]) [ h1; h2; h3 ]
-         @ [ s_b (shift_suit_hand h3 = ws) ])
-  | "perm5" -> (
-      let ws = nums () in
-      let rec perms = function [] -> [ [] ] | l -> List.concat_map (fun x -> List.map (fun p -> x :: p) (perms (List.filter (( <> ) x) l))) l in
-      (* permutations of the five POSITIONS, so that repeated words are handled like the implementation side *)
-      let idx = perms [ 0; 1; 2; 3; 4 ] in
-      match hand_rank_value c ws with
-      | Ok v0 ->
-          let ok r = match r with Ok x -> x = v0 | _ -> false in
-          let same =
-            List.for_all
-              (fun p ->
-                let w = List.map (List.nth ws) p in
-                ok (hand_rank_value c w) && (match hrvh c w with Ok (x, _) -> x = v0 | _ -> false)
-                && ok (hand_rank_value_validated c w) && ok (evaluate_five_cards c w))
-              idx
-          in
-          let i = int64_of_n v0 in
-          String.concat " " [ s_b same; s_b (Int64.compare i 1L >= 0 && Int64.compare i 7462L <= 0) ]
-      | _ -> "P")
-  | "hrself" ->
-      let ws = List.tl (nums ()) in
-      let one r = match r with Ok v -> (let h = hr_from v in s_b (h = hr_from v)) | _ -> "P" in
-      let hrv = hand_rank_value c ws in
-      String.concat " "
-        [ one hrv; one (hand_rank_value_validated c ws);
-          (match hrv with Ok v -> s_b ((not (is_invalid (hr_from v))) && is_a_valid_hand_rank (hr_from v)) | _ -> "P") ]
-  | "relabel" -> (
-      let ws = List.tl (nums ()) in
-      let rec perms = function [] -> [ [] ] | l -> List.concat_map (fun x -> List.map (fun p -> x :: p) (perms (List.filter (( <> ) x) l))) l in
-      let four = [ n_of_string "0"; n_of_string "1"; n_of_string "2"; n_of_string "3" ] in
-      let v0 = hand_rank_value c ws and w0 = hand_rank_value_validated c ws in
-      match (v0, w0) with
-      | Ok v0, Ok w0 ->
-          let same = ref true and same_v = ref true in
-          List.iter
-            (fun p ->
-              let f s = match List.assoc_opt s (List.combine four p) with Some t -> t | None -> s in
-              let h = List.map (fun w -> create (get_card_rank w) (f (get_card_suit w))) ws in
-              (match hand_rank_value c h with Ok v1 -> same := !same && v1 = v0 | _ -> same := false);
-              match hand_rank_value_validated c h with Ok w1 -> same_v := !same_v && w1 = w0 | _ -> same_v := false)
-            (perms four);
-          String.concat " " [ s_b !same; s_b !same_v ]
-      | _ -> "P")
-  | "chain7" | "chain7s" -> (
-      let ws = nums () in
-      let skip l k = List.filteri (fun i _ -> i <> k) l in
-      let le a b = Int64.unsigned_compare (int64_of_n a) (int64_of_n b) <= 0 in
-      let minl l = List.fold_left (fun a x -> if le x a then x else a) (List.hd l) l in
-      let exception Pan in
-      let get r = match r with Ok x -> x | _ -> raise Pan in
-      try
-        let v7 = get (hand_rank_value c ws) in
-        let sixes = List.init 7 (fun k -> skip ws k) in
-        let v6s = List.map (fun s -> get (hand_rank_value c s)) sixes in
-        let ok76 = List.for_all (fun v6 -> le v7 v6) v6s in
-        let ok65 = ref true and min_ok = ref true in
-        List.iter2
-          (fun s v6 ->
-            let v5s = List.init 6 (fun k -> get (hand_rank_value c (skip s k))) in
-            ok65 := !ok65 && List.for_all (fun v5 -> le v6 v5) v5s;
-            min_ok := !min_ok && minl v5s = v6)
-          sixes v6s;
-        String.concat " " [ s_b ok76; s_b (v7 = minl v6s); s_b !ok65; s_b !min_ok ]
-      with Pan -> "P")
+      (* C02 projection: every entry point = the lowest non-zero value among the five-slot sub-hands (Model/Proj.v) *)
+      s_fields (proj_best c (List.tl (nums ())))
+  | "vrank" -> s_fields (proj_vrank c (List.tl (nums ())))
+  | "wit" -> s_res s_bools (proj_wit c (List.tl (nums ())))
+  | "shiftinv" -> s_fields (proj_shiftinv c (List.tl (nums ())))
+  | "perm5" -> s_guarded (proj_perm5 c (nums ()))
+  | "hrself" -> s_fields (proj_hrself c (List.tl (nums ())))
+  | "relabel" -> s_guarded (proj_relabel c (List.tl (nums ())))
+  | "chain7" | "chain7s" -> s_guarded (proj_chain7 c (nums ()))
   | "rankp" ->
       let v = nums () in
       let n = int_of_n (List.hd v) in
       let ws = List.tl v in
-      let okp r = match r with Ok _ -> "ok" | Panic -> "P" | Diverge -> "DIVERGE" in
-      let hrv = hand_rank_value c ws in
-      let vv = hand_rank_value_validated c ws in
-      let base = [ okp hrv; okp hrv; okp (hrvh c ws); okp vv; okp vv ] in
-      let base = if n = 5 then base @ [ okp (evaluate_five_cards c ws) ] else base in
+      (* "returned normally?" per entry point: the extracted projection; a blank five also shows what it was given *)
+      let base = List.map (fun b -> if b then "ok" else "P") (proj_rankp c ws) in
       let base =
-        if n = 5 && List.mem N0 ws then base @ [ s_res s_n hrv; s_res (fun x -> s_hr (hr_from x)) hrv ] else base in
+        if n = 5 && List.mem N0 ws then
+          let hrv = hand_rank_value c ws in
+          base @ [ s_res s_n hrv; s_res (fun x -> s_hr (hr_from x)) hrv ]
+        else base in
       String.concat " " base
   | "fipp" -> (match find_in_products c (List.hd (nums ())) with Ok _ -> "ok" | Panic -> "P" | Diverge -> "DIVERGE")
   | "fip" -> s_res s_n (find_in_products c (List.hd (nums ())))
@@ -270,28 +163,8 @@ let exec toks =
             [ s_res s_z (chen_formula c ws); s_res s_n (get_gap c ws); s_n (high_card ws);
               s_res s_b (is_connector c ws); s_b (is_pocket_pair ws); s_b (is_suited ws);
               s_res s_b (is_suited_connector c ws) ])
-  | "sortp" ->
-      let ws = List.tl (nums ()) in
-      let s = sort_desc ws in
-      let ge a b = Int64.unsigned_compare (int64_of_n a) (int64_of_n b) >= 0 in
-      let rec desc = function a :: (b :: _ as r) -> ge a b && desc r | _ -> true in
-      let key l = List.sort compare (List.map int64_of_n l) in
-      String.concat " " [ s_b (desc s); s_b (key s = key ws); "1"; s_b (sort_desc s = s) ]
-  | "bcsetp" ->
-      let ws = List.tl (nums ()) in
-      let bc = bc_from_hand ws in
-      let deck = List.init 52 (fun i -> match deck_get (n_of_int64 (Int64.of_int i)) with Ok w -> w | _ -> N0) in
-      let members = List.filter (fun cd -> List.mem cd ws) deck in
-      let count_ok = int64_of_n (number_of_cards bc) = Int64.of_int (List.length members) in
-      let has_ok = List.for_all (fun cd -> has bc (from_ckc cd)) members in
-      let no_overflow = Int64.shift_right_logical (int64_of_n bc) 52 = 0L in
-      let x = ref bc in
-      let peeled = List.map (fun _ -> let r, x' = peel !x in x := x'; from_binary_card r) members in
-      let rest = !x in
-      let last, x' = peel !x in
-      let peel_ok = peeled = members && last = N0 && x' = rest && rest = N0 in
-      let valid_ok = bc_is_valid bc = (members <> []) in
-      String.concat " " [ s_b count_ok; s_b has_ok; s_b no_overflow; s_b peel_ok; s_b valid_ok ]
+  | "sortp" -> s_bools (proj_sortp (List.tl (nums ())))
+  | "bcsetp" -> s_bools (proj_bcsetp (List.tl (nums ())))
   | "bcfrom" -> s_n (bc_from_hand (List.tl (nums ())))
   | "bcops" -> (
       match nums () with
@@ -350,25 +223,7 @@ let exec toks =
             String.concat " "
               [ s_cmp c; s_cmp c; s_b (hr_eqb x y); s_b (not (hr_eqb x y)); s_b (hr_lt x y); s_b (hr_le x y); s_b (hr_gt x y); s_b (hr_ge x y) ]
       | _ -> failwith "hrcmpp")
-  | "hrkey" -> (
-      match nums () with
-      | [ a; b ] ->
-          let inval v = v = N0 || Int64.compare (int64_of_n v) 7462L > 0 in
-          let x = hr_from a and y = hr_from b in
-          let c = hr_cmp x y in
-          let opp = function Eq -> Eq | Lt -> Gt | Gt -> Lt in
-          let cmpn p q = let d = Int64.compare (int64_of_n p) (int64_of_n q) in if d < 0 then Lt else if d > 0 then Gt else Eq in
-          let spec_ok =
-            match (inval a, inval b) with
-            | false, false -> c = cmpn b a
-            | true, false -> c = Lt
-            | false, true -> c = Gt
-            | true, true -> (c = Eq) = (a = b) && hr_cmp y x = opp c
-          in
-          let eq_ok = hr_eqb x y = (a = b) && (c = Eq) = hr_eqb x y in
-          let ops_ok = hr_lt x y = (c = Lt) && hr_le x y = (c <> Gt) && hr_gt x y = (c = Gt) && hr_ge x y = (c <> Lt) in
-          String.concat " " [ s_b spec_ok; s_b eq_ok; s_b ops_ok ]
-      | _ -> failwith "hrkey")
+  | "hrkey" -> (match nums () with [ a; b ] -> s_bools (proj_hrkey a b) | _ -> failwith "hrkey")
   | "hrtri" -> (
       match nums () with
       | [ a; b; d ] ->
